@@ -7,8 +7,8 @@ The expression type `Expr` is the parsed formula with references already resolve
 (that resolution is C04's subject) and literals already converted (`Number.compile`,
 `String.compile`, `Error.compile`).  The function vocabulary is the one the workbook-level
 checks generate: the 15 operators, `SUM`, `MAX`, `MIN`, `IF`, `IFERROR`, `ISERROR`, `ABS`, `AND`,
-`OR`, `NOT`, `COUNT`; everything else evaluates to `#NAME?` exactly as an unimplemented function
-does in the code (`CellWrapper.__call__`).
+`OR`, `NOT`, `COUNT`; every other function name raises `NotImplementedError`, which `CellWrapper.__call__` turns into
+`#NAME?` for the whole cell (`XL.Model.Book.formulaValue`).
 
 `Res.scalar` is a Python scalar (a literal); `Res.arr` is a numpy array (every reference and every
 computed value).  Some functions distinguish the two (`SUM("5")` counts, a `"5"` inside a range
@@ -230,7 +230,7 @@ structure Env (F : Type) where
 def readRange (env : Env F) (r : RRef) : Arr (Val F) :=
   tabulate (r.r2 + 1 - r.r1) (r.c2 + 1 - r.c1) fun i j => env.cell r.sheet (r.r1 + i) (r.c1 + j)
 
-inductive EvalErr | broadcast
+inductive EvalErr | broadcast | notImplemented
   deriving Repr, DecidableEq
 
 mutual
@@ -265,7 +265,7 @@ def evalExpr (env : Env F) : Expr F → Except EvalErr (Res F)
       else if f = "AND" then .ok (evalAndOr true vs)
       else if f = "OR" then .ok (evalAndOr false vs)
       else if f = "NOT" then (match vs with | [v] => .ok (.arr (map1 notElem (blankTo (.num Num.zero) v.toArr))) | _ => .ok (errArr .value))
-      else .ok (errArr .name)
+      else .error .notImplemented     -- `NotImplementedError`: the whole cell becomes `#NAME?` (`CellWrapper.__call__`)
 def evalArgs (env : Env F) : List (Expr F) → Except EvalErr (List (Res F))
   | [] => .ok []
   | a :: as =>
